@@ -28,7 +28,9 @@ pub type Ctx = HashMapContext<DefaultNumericTypes>;
 pub const H_VARS: [&str; 3] = ["a", "b", "f"];
 /// function names of the histories; `len` coincides with a builtin (user functions must win)
 pub const H_FNS: [&str; 3] = ["f", "g", "len"];
-pub const BEHAVIOURS: [&str; 5] = ["f", "g", "h", "k", "n"];
+/// sentinel behaviours a function name can be bound to; `c` is stateful (a counter whose state is
+/// copied when the context is cloned)
+pub const BEHAVIOURS: [&str; 6] = ["f", "g", "h", "k", "n", "c"];
 pub const MAX_ACTORS: usize = 4;
 
 pub fn static_behaviour(b: &str) -> &'static str {
@@ -346,6 +348,8 @@ pub struct Model {
     /// name -> sentinel behaviour
     pub fns: BTreeMap<String, String>,
     pub disabled: bool,
+    /// call counts of the functions bound to the stateful behaviour `c`
+    pub counters: BTreeMap<String, i64>,
 }
 
 /// Complete observable state of a context (real or model), canonical.
@@ -407,6 +411,8 @@ fn lookup_names() -> Vec<&'static str> {
     let mut v: Vec<&'static str> = H_VARS.to_vec();
     v.push("g");
     v.push(UNBOUND_NAME);
+    v.extend(crate::env::EXTRA_VAR_NAMES.iter().copied());
+    v.push("F");
     v
 }
 
@@ -421,7 +427,7 @@ fn probe_fn_names() -> Vec<&'static str> {
 }
 
 pub fn observe_model(m: &Model) -> Observation {
-    let probe = Value::Int(41);
+    let probe = Value::Int(crate::env::PROBE_ARG);
     Observation {
         lookups: lookup_names()
             .iter()
@@ -438,6 +444,7 @@ pub fn observe_model(m: &Model) -> Observation {
             .iter()
             .map(|n| {
                 let r: R = match m.fns.get(*n) {
+                    Some(b) if b == "c" => Ok(Value::Int(m.counters.get(*n).copied().unwrap_or(0))),
                     Some(b) => Ok(sentinel(b, &probe)),
                     None => Err(EvalexprError::FunctionIdentifierNotFound(n.to_string())),
                 };
@@ -449,7 +456,7 @@ pub fn observe_model(m: &Model) -> Observation {
 }
 
 pub fn observe_real(ctx: &Ctx) -> Observation {
-    let probe = Value::Int(41);
+    let probe = Value::Int(crate::env::PROBE_ARG);
     let raw: Vec<(String, V)> = ctx.iter_variables().collect();
     let raw_names: Vec<String> = ctx.iter_variable_names().collect();
     let mut listing: Vec<(String, String)> = raw.iter().map(|(n, v)| (n.clone(), cv(v))).collect();
@@ -637,6 +644,7 @@ pub fn apply_real(ctx: &mut Ctx, op: &Op, rec: Option<&Rec>) -> String {
         }),
         Op::SetFunction { name, behaviour } => guard(|| {
             let f = match rec {
+                _ if behaviour == "c" => crate::env::counter_function(name.clone(), rec.cloned()),
                 Some(rec) => {
                     recording_function(name.clone(), static_behaviour(behaviour), rec.clone())
                 },
@@ -679,11 +687,44 @@ pub fn apply_real(ctx: &mut Ctx, op: &Op, rec: Option<&Rec>) -> String {
                 let r2 = plain.assemble(true).eval_with_context_mut(&mut c2);
                 let s1 = format!("{} vars={:?}", cr(&r1), snapshot_vars(&c1));
                 let s2 = format!("{} vars={:?}", cr(&r2), snapshot_vars(&c2));
-                if s1 == s2 {
-                    "equivalent".to_string()
-                } else {
-                    format!("DIFFERENT: op-assign gives {} but plain form gives {}", s1, s2)
+                if s1 != s2 {
+                    return format!("DIFFERENT: op-assign gives {} but plain form gives {}", s1, s2);
                 }
+                // the same from source text, with the assignment as a tuple element, a chain
+                // element, and the last tuple element
+                if rhs.is_renderable() {
+                    let seven = Expr::Lit(Value::Int(7));
+                    let shapes: [(Expr, Expr); 3] = [
+                        (
+                            Expr::Tuple(vec![compound.clone(), seven.clone()]),
+                            Expr::Tuple(vec![plain.clone(), seven.clone()]),
+                        ),
+                        (
+                            Expr::Chain(vec![compound.clone(), Expr::Read(name.clone())]),
+                            Expr::Chain(vec![plain.clone(), Expr::Read(name.clone())]),
+                        ),
+                        (
+                            Expr::Tuple(vec![seven.clone(), compound.clone()]),
+                            Expr::Tuple(vec![seven.clone(), plain.clone()]),
+                        ),
+                    ];
+                    for (a, b) in shapes.iter() {
+                        let (sa, sb) = (a.render(), b.render());
+                        let mut c1 = ctx.clone();
+                        let mut c2 = ctx.clone();
+                        let r1 = evalexpr::eval_with_context_mut(&sa, &mut c1);
+                        let r2 = evalexpr::eval_with_context_mut(&sb, &mut c2);
+                        let s1 = format!("{} vars={:?}", cr(&r1), snapshot_vars(&c1));
+                        let s2 = format!("{} vars={:?}", cr(&r2), snapshot_vars(&c2));
+                        if s1 != s2 {
+                            return format!(
+                                "DIFFERENT: `{}` gives {} but `{}` gives {}",
+                                sa, s1, sb, s2
+                            );
+                        }
+                    }
+                }
+                "equivalent".to_string()
             })
         },
         Op::Fork | Op::Overwrite { .. } | Op::Reset | Op::ResetMacro | Op::ResetDefault => {
@@ -770,6 +811,7 @@ pub fn apply_model(
                 log: Vec::new(),
                 faults,
                 fired: Vec::new(),
+                counters: m.counters.clone(),
             };
             let r: R = match ref_eval(&tree, &mut env, immutable, d) {
                 Ok(v) => Ok(v),
@@ -779,6 +821,8 @@ pub fn apply_model(
             if !immutable {
                 m.vars = env.vars;
             }
+            // the state of stateful user functions advances on either path, failed or not
+            m.counters = env.counters;
             format!(
                 "{} {}",
                 cr(&r),
@@ -812,15 +856,21 @@ pub fn apply_model(
         },
         Op::ClearFns => {
             m.fns.clear();
+            m.counters.clear();
             "()".to_string()
         },
         Op::Clear => {
             m.vars.clear();
             m.fns.clear();
+            m.counters.clear();
             "()".to_string()
         },
         Op::SetFunction { name, behaviour } => {
             m.fns.insert(name.clone(), behaviour.clone());
+            m.counters.remove(name);
+            if behaviour == "c" {
+                m.counters.insert(name.clone(), 0);
+            }
             "Ok(())".to_string()
         },
         Op::CallFunction { name, arg, fault } => {
@@ -829,6 +879,9 @@ pub fn apply_model(
                     let log = vec![Ev::Call(name.clone(), cv(arg))];
                     if *fault {
                         (Err(injected_error(0)), log)
+                    } else if b == "c" {
+                        let count = m.counters.entry(name.clone()).or_insert(0);
+                        (Ok(crate::refint::counter_sentinel(count, arg)), log)
                     } else {
                         (Ok(sentinel(b, arg)), log)
                     }
@@ -1141,7 +1194,13 @@ pub fn gen_history(work: &mut Rng, sched: &mut Rng, conf: &mut Rng, d: &mut Dele
             kind = 13;
         }
         let model = &models[a];
-        let name = |r: &mut Rng| r.pick(&H_VARS).to_string();
+        let name = |r: &mut Rng| {
+            if r.percent(8) {
+                r.pick(&crate::env::EXTRA_VAR_NAMES).to_string()
+            } else {
+                r.pick(&H_VARS).to_string()
+            }
+        };
         let op = match kind {
             0 => {
                 let n = name(work);
@@ -1156,7 +1215,7 @@ pub fn gen_history(work: &mut Rng, sched: &mut Rng, conf: &mut Rng, d: &mut Dele
                         }
                         work.pick(&p).clone()
                     },
-                    _ => any_value(work),
+                    _ => crate::gen::any_value_ext(work),
                 };
                 Op::SetValue { name: n, value }
             },
